@@ -4,6 +4,7 @@ import Rooc.Display
 import Rooc.DisplayItems
 import Rooc.DisplayOracle
 import Rooc.NumTok
+import Rooc.DisplayLink
 namespace Rooc.Drv.C12
 open Rooc Sexp Rooc.NumTok
 
@@ -15,14 +16,39 @@ def handle (α : Type) [Arith α] [Wire α] : List Sexp → Sexp
     | _, _ => app "err" [.atom "decode"]
   | [.atom "display-model", m, toks] =>
     match (Model.dec m : Option (Model α)), decToks toks with
-    | some m, some tbl => app "ok" [.str (Display.displayModel (tokStr tbl) m)]
+    | some m, some tbl =>
+      -- whole-model round trip (run-time half of `parse_display_model`): text → lexer model → `modelToks`,
+      -- text → program parser model → `modelProgram`
+      match Display.modelLink (tokStr tbl) m with
+      | some what => app "err" [.atom "display-model-link-broken", .atom what, .str (Display.displayModel (tokStr tbl) m)]
+      | none => app "ok" [.str (Display.displayModel (tokStr tbl) m)]
     | _, _ => app "err" [.atom "decode"]
   | [.atom "display-lin", lm, toks] =>
     match (LinModel.dec lm : Option (LinModel α)), decToks toks with
     | some lm, some tbl =>
+      match Display.linLink (tokStr tbl) lm with
+      | some what => app "err" [.atom "display-lin-link-broken", .atom what, .str ((Display.displayLin (tokStr tbl) lm).getD "")]
+      | none =>
       match Display.displayLin (tokStr tbl) lm with
       | some s => app "ok" [.str s]
       | none => app "err" [.atom "panic"]
+    | _, _ => app "err" [.atom "decode"]
+  -- coverage probe: is the rendered model inside the fragment of the whole-model round trip, and did the check run?
+  | [.atom "link-status", .atom "display-model", m, toks] =>
+    match (Model.dec m : Option (Model α)), decToks toks with
+    | some m, some tbl =>
+      if !Display.modelFragB (tokStr tbl) m then app "ok" [.atom "outside"]
+      else (match Syntax.lex ((Display.displayModel (tokStr tbl) m).toList ++ ['\n']) with
+            | .unsupported => app "ok" [.atom "lexer-declines"]
+            | .ok _ => app "ok" [.atom (match Display.modelLink (tokStr tbl) m with | none => "checked" | some w => "broken-" ++ w)])
+    | _, _ => app "err" [.atom "decode"]
+  | [.atom "link-status", .atom "display-lin", lm, toks] =>
+    match (LinModel.dec lm : Option (LinModel α)), decToks toks with
+    | some lm, some tbl =>
+      if !Display.linFragB (tokStr tbl) lm then app "ok" [.atom "outside"]
+      else (match Syntax.lex (((Display.displayLin (tokStr tbl) lm).getD "").toList ++ ['\n']) with
+            | .unsupported => app "ok" [.atom "lexer-declines"]
+            | .ok _ => app "ok" [.atom (match Display.linLink (tokStr tbl) lm with | none => "checked" | some w => "broken-" ++ w)])
     | _, _ => app "err" [.atom "decode"]
   | _ => app "err" [.atom "bad-request"]
 
